@@ -27,6 +27,7 @@ var H *vdb.Handle
 func initEnv(c *core.Ctx) {
 	h, err := vdb.Open(vdb.Options{Config: gorm.Config{DisableForeignKeyConstraintWhenMigrating: true}})
 	must(err)
+	must(h.DB.SetupJoinTable(&User{}, "Clubs", &Membership{}))
 	must(h.DB.AutoMigrate(allModels...))
 	H = h
 }
@@ -298,6 +299,7 @@ type kase struct {
 	ptrElems bool              // slice mode: the owners are a []*Owner
 	pool     string            // name of the key pools in use
 	universe []string          // application-assigned keys: unused target keys
+	dead     map[string]map[string]bool // soft-delete join model: soft-deleted join rows seeded with raw SQL (owner -> targets)
 	gone     map[string]string // records removed for good by an Unscoped call of this sequence: key -> name
 	callUsed map[string]bool   // keys of new / re-created records already named in the call being generated
 	noShare  bool              // belongs-to with Unscoped steps: a target is never linked to two owners
@@ -325,6 +327,7 @@ func (k *kase) seed() {
 		k.c.Inc("cases_" + s.name + "_keys_" + ps.name)
 	}
 	k.gone = map[string]string{}
+	k.dead = map[string]map[string]bool{}
 	if opool != nil {
 		p := r.Perm(len(opool))
 		for i := 0; i < 4; i++ {
@@ -363,6 +366,7 @@ func (k *kase) seed() {
 	for _, t := range sortedKeys(boolSet(k.m.recs)) {
 		s.insTarget(t, k.m.recs[t])
 	}
+	var leftovers []string
 	// operated owners
 	nOp := 1
 	switch k.mode {
@@ -394,6 +398,30 @@ func (k *kase) seed() {
 	for _, o := range all {
 		for _, t := range sortedKeys(k.m.links[o]) {
 			s.insLink(o, t)
+		}
+	}
+	// what earlier removals left behind without being links (see insLeftover)
+	if (s.soft && s.store == fkTarget) || s.softJoin {
+		for i, n := 0, r.Range(0, 3); i < n; i++ {
+			o := core.Pick(r, all)
+			if s.softJoin {
+				t := core.Pick(r, recKeys)
+				if k.dead[o][t] || k.m.links[o][t] {
+					continue
+				}
+				if k.dead[o] == nil {
+					k.dead[o] = map[string]bool{}
+				}
+				k.dead[o][t] = true
+				s.insLeftover(o, t, "")
+				leftovers = append(leftovers, fmt.Sprintf("soft-deleted join row (%s, %s)", o, t))
+			} else {
+				t := fmt.Sprint(ne + 1 + i)
+				k.m.soft[t] = true
+				s.insLeftover(o, t, fmt.Sprintf("z%d", i+1))
+				leftovers = append(leftovers, fmt.Sprintf("soft-deleted record %s whose key column still names %s", t, o))
+			}
+			k.c.Inc("seeded_soft_deleted_leftovers")
 		}
 	}
 	// owner values
@@ -441,6 +469,9 @@ func (k *kase) seed() {
 		}
 	}
 	k.seedDump = map[string]interface{}{"owner_rows": all, "target_records": copyMap(k.m.recs), "links(owner->targets)": k.m.linkDump()}
+	if len(leftovers) > 0 {
+		k.seedDump["not_links"] = leftovers
+	}
 }
 
 func boolSet(m map[string]string) map[string]bool {
@@ -497,7 +528,7 @@ func (k *kase) pickTargets(o string, n int, forDelete bool, allowNew bool, avoid
 		if forDelete {
 			weighted = []string{"linked", "linked", "linked", "linked", "linked", "free", "other", "other", "dup", "absent"}
 		}
-		avail := map[string]bool{"new": allowNew && (!k.spec.assigned || len(k.universe) > 0), "newkey": allowNew && !k.spec.assigned,
+		avail := map[string]bool{"new": allowNew && (!k.spec.assigned || len(k.universe) > 0), "newkey": allowNew && !k.spec.assigned && !k.spec.softJoin,
 			"gone": allowNew && len(gone) > 0, "absent": forDelete && (len(gone) > 0 || !k.spec.assigned || len(k.universe) > 0),
 			"free": len(free) > 0, "linked": len(linked) > 0, "other": len(other) > 0, "dup": len(dupCands) > 0}
 		var classes []string
@@ -588,8 +619,10 @@ func (k *kase) genStep(i int) *step {
 		st.unscoped = r.Bool()
 	}
 	reads := st.op == "Count" || st.op == "Find"
-	if st.unscoped && s.soft && !reads {
-		// (Count / Find through db.Unscoped() read soft-deleted rows on purpose: not generated)
+	if st.unscoped && (s.soft || s.softJoin) && s.store != fkOwner && !reads {
+		// (Count / Find through db.Unscoped() read soft-deleted rows on purpose: not generated;
+		// belongs to: whether db.Unscoped() makes the deletion of the old target permanent differs
+		// between Delete and Replace/Clear and is not fixed by the statement: not generated)
 		st.hard = r.Chance(1, 3)
 	}
 	switch k.mode {
@@ -1159,6 +1192,7 @@ func onlyUnscopedReads(ps []problem) bool {
 
 type snapshot struct {
 	links map[string]map[string]bool
+	dead  map[string]map[string]int // soft-delete join model: soft-deleted join rows stored before the step
 	mem   map[string]map[string]bool // owner key -> keys held by its operated value
 }
 
@@ -1174,7 +1208,7 @@ func cloneSets(m map[string]map[string]bool) map[string]map[string]bool {
 }
 
 func (k *kase) snapshot() *snapshot {
-	sn := &snapshot{links: cloneSets(k.m.links), mem: map[string]map[string]bool{}}
+	sn := &snapshot{links: cloneSets(k.m.links), mem: map[string]map[string]bool{}, dead: k.spec.readDead()}
 	for _, ov := range k.vals {
 		sn.mem[ov.ok] = map[string]bool{}
 		for t := range ov.mem {
@@ -1301,6 +1335,23 @@ func (k *kase) sig(st *step, ps []problem, sn *snapshot, applied bool) string {
 		}
 		if shifted && sameLinks(alt, stored) && !sameLinks(k.m.links, stored) {
 			return "many2many-keyless-new-record-after-keyed-new-record-takes-its-key"
+		}
+	}
+	if applied && s.softJoin && (st.op == "Append" || st.op == "Replace") {
+		// counterfactual: a link whose join row is still stored soft-deleted (left by an earlier
+		// removal) is not stored again - the INSERT of the join row conflicts with the dead row
+		alt := cloneSets(k.m.links)
+		dropped := false
+		for i, ov := range st.owners {
+			for _, t := range argKeys(st, i) {
+				if sn.dead[ov.ok][t] > 0 && !sn.links[ov.ok][t] && alt[ov.ok][t] {
+					delete(alt[ov.ok], t)
+					dropped = true
+				}
+			}
+		}
+		if dropped && sameLinks(alt, stored) && !sameLinks(k.m.links, stored) {
+			return "many2many-soft-delete-join-model-relink-after-removal-not-stored"
 		}
 	}
 	if s.store == fkOwner && (!applied || sameLinks(k.m.links, stored)) {
